@@ -281,9 +281,15 @@ def tr_cfglife(run):
     cg_fns, touch, _, _, _ = callgraph(run)
     mine = [fn for (_, _, fn) in CFG_ITEMS + NTS_ITEMS] + [pf for (_, pf) in reg]
     callees = set()
-    for fn in mine:
-        if fn in cg_fns:
-            callees |= set(cg_fns[fn][1])
+    todo = [fn for fn in mine if fn in cg_fns]
+    seen_fn = set(todo)
+    while todo:               # direct callees, and what file-local static helpers (possibly inlined into the skeletons) call in turn
+        fn = todo.pop()
+        for c in cg_fns[fn][1]:
+            callees.add(c)
+            if c in cg_fns and c not in seen_fn and cg_fns[c][3].get("storageClass") == "static":
+                seen_fn.add(c)
+                todo.append(c)
     neutral = sorted(c for c in callees if c not in ACQ and c not in REL and c not in touch)
     out.append("Definition cfg_neutral : list string :=\n  [%s].\n" % "; ".join(q(c) for c in neutral))
     # who writes the record at all (whole library, raw AST)
